@@ -62,9 +62,10 @@ def run(rep):
     recs = res.json
     mprun.validate_model(progs, recs)
     if tier == 'thorough':
-        opts = [dict(o, ops='count', code=True) for o in rp.OPTION_SETS]
+        opts = [dict(o, ops='count', code=True) for o in rp.OPTION_SETS + [rp.LISTS_OPTION]]
     else:   # quick: run one option set, convert + scan the generated code of one more
-        opts = [dict(rp.OPTION_SETS[0], ops='count', code=True)] + [dict(o, ops='count', code=True, norun=True) for o in rp.OPTION_SETS[2:3]]
+        opts = [dict(rp.OPTION_SETS[0], ops='count', code=True), dict(rp.LISTS_OPTION, ops='count', code=True)] + [
+            dict(o, ops='count', code=True, norun=True) for o in rp.OPTION_SETS[2:3]]
     div, nrun, errs = rp.replay_all(progs, recs, opts, name='c04')
     rep.set('programs', len(progs))
     rep.set('executions', len(recs))
